@@ -368,7 +368,7 @@ contract(
 
 contract(
     B + "__init__", params={"self": "PyObj", "ode": "ODE", "remove_unused": "Bool", "shape": "Name"}, ret="PyNone",
-    enum_params={"self": [None]}, ghost={"x": "Name"},
+    enum_params={"self": [None]}, ghost={"x": "Name"}, raises={"GotranxError": "maybe"},
     ensures={"fields": "self.ode == ode and self.remove_unused == remove_unused and self._missing_variables == ode.missing_variables and self._shape == shape",
              "condition_invariant": "self._condition(x) == ((not remove_unused) or (x in ode.dependents()))"},
     properties=("C12",),
